@@ -38,3 +38,46 @@ package index
 //@   ensures @empty pos == 0 ==> localPos == 0 && fileNum == 0
 //@   ensures @file pos != 0 ==> fileNum == wrapu32((pos - 4) / maxFileSize)
 //@   ensures @local pos != 0 ==> localPos == wrapu64(pos - fileNum*maxFileSize)
+
+// ---------------------------------------------------------------------------
+// Layer A: abstract contract of the index over ghost state (DESIGN.md §3).
+//   idx.$Ein[k]  - the full index key k has an entry
+//   idx.$Eblk[k] - the block code (pair(Offset,Size)) it maps to
+// ihit/ires (prelude store.smt2) describe the entry a lookup lands on: the
+// key's own entry when it is present, otherwise none or a false positive.
+// These clauses are `abstract`: callers (package store) are verified against
+// them; the bodies below are verified against the concrete record-list
+// contracts (C08) instead. The connection between the two is refinement gap
+// GAP-1 and is listed as an assumption in the evidence.
+
+//@ type Index
+//@   ghost field $Ein (Array Bytes Bool)
+//@   ghost field $Eblk (Array Bytes Int)
+
+//@ func (idx *Index) Get(key []byte) (blk types.Block, found bool, err error)
+//@   abstract gap GAP-1: pools+disk record lists implement the ghost index map
+//@   abstract ensures err == nil ==> found == ihit(idx.$Ein, idx.$Eblk, bytes(key))
+//@   abstract ensures err == nil && found ==> keyof(blk) == idx.$Eblk[ires(idx.$Ein, idx.$Eblk, bytes(key))]
+//@   abstract ensures err != nil ==> !found
+//@   abstract ensures err == nil ==> len(key) >= 4
+
+//@ func (idx *Index) Put(key []byte, location types.Block) (err error)
+//@   abstract gap GAP-1: pools+disk record lists implement the ghost index map
+//@   abstract modifies idx.$Ein, idx.$Eblk
+//@   abstract ensures err == nil && old(idx.$Ein)[bytes(key)] ==> idx.$Ein == old(idx.$Ein) && idx.$Eblk == old(idx.$Eblk)
+//@   abstract ensures err == nil && !old(idx.$Ein)[bytes(key)] ==> idx.$Ein == old(idx.$Ein)[bytes(key) := true] && idx.$Eblk == old(idx.$Eblk)[bytes(key) := keyof(location)]
+//@   abstract ensures err != nil ==> idx.$Ein == old(idx.$Ein) && idx.$Eblk == old(idx.$Eblk)
+
+//@ func (idx *Index) Update(key []byte, location types.Block) (err error)
+//@   abstract gap GAP-1: pools+disk record lists implement the ghost index map
+//@   abstract modifies idx.$Eblk
+//@   abstract ensures err == nil ==> old(ihit(idx.$Ein, idx.$Eblk, bytes(key))) && idx.$Eblk == old(idx.$Eblk)[old(ires(idx.$Ein, idx.$Eblk, bytes(key))) := keyof(location)]
+//@   abstract ensures err != nil ==> idx.$Eblk == old(idx.$Eblk)
+
+//@ func (idx *Index) Remove(key []byte) (removed bool, err error)
+//@   abstract gap GAP-1: pools+disk record lists implement the ghost index map
+//@   abstract modifies idx.$Ein
+//@   abstract ensures err == nil ==> removed == old(ihit(idx.$Ein, idx.$Eblk, bytes(key)))
+//@   abstract ensures err == nil && removed ==> idx.$Ein == old(idx.$Ein)[old(ires(idx.$Ein, idx.$Eblk, bytes(key))) := false]
+//@   abstract ensures (err == nil && !removed) || err != nil ==> idx.$Ein == old(idx.$Ein)
+//@   abstract ensures err != nil ==> !removed
